@@ -45,6 +45,10 @@ RULE = ("(a) aligned periods (first of month for month/year, Monday for week) of
         "single-character deletion/substitution/insertion (alphabet 0-9 - : W + _ space a e) of twelve valid texts, "
         "the rejection classes of the statement (impossible dates incl. week 53 of 52-week years, unit lighter than "
         "the date's precision, non-integer size, unknown unit, extra fields, empty fields), random short strings. "
+        "(0) 150 sequences run in ONE process each: every accepted spelling of a day (ISO date, week date with and "
+        "without weekday, month, year, unit-prefixed forms) parsed in random order, the parser's own result printed "
+        "and parsed back, then the instant and periods of that day and its neighbours built afresh and printed: "
+        "printing must not depend on what was parsed before. "
         "A case is non-trivial when it yields a value (not an error) and is distinct as (op, arguments)")
 TRUSTED = ["pendulum 3.2 parse(text, exact=True) (Rust ISO-8601 parser + fallback regex), datetime.date validity, "
            "Python int(str)/str(int)/format/split/lower and the re module are modelled by PeriodStr.v, covered by the "
@@ -83,7 +87,7 @@ def cperiod(p):
     return f"({UCOQ[p[0]]}, {cdate(p[1])}, {cz(p[2])})"
 
 
-def coq_case(c):
+def coq_step(c):
     op = c["op"]
     if op == "show":
         return f"(KShow {cperiod(c['p'])})"
@@ -101,7 +105,17 @@ def coq_case(c):
         return f"(KShowMany {clist([cperiod(p) for p in c['ps']])})"
     if op == "disk":
         return f"(KDisk {clist([cperiod(p) for p in c['ps']])})"
+    if op == "parseshow":
+        return f"(KParseShow {cstr(c['s'])})"
+    if op == "iparseshow":
+        return f"(KParseShowInst {cstr(c['s'])})"
     raise ValueError(op)
+
+
+def coq_case(c):
+    if c["op"] == "seq":
+        return f"(KSeq {clist([coq_step(x) for x in c['steps']])})"
+    return f"(KOne {coq_step(c)})"
 
 
 # ---- implementation driver -------------------------------------------------------------
@@ -117,20 +131,38 @@ def run_impl(c):
     if op == "iparse":
         return list(periods.instant(c["s"]))
     if op == "round":
-        text = str(mk_period(c["p"]))
-        q = guarded(periods.period, text)
-        if isinstance(q, Err):
-            return [text, q]
-        return [text, enc_period(q), guarded(str, q)]
+        return round_obs(mk_period(c["p"]))
     if op == "iround":
-        text = str(Instant(tuple(c["c"])))
-        i = guarded(periods.instant, text)
-        return [text, i if isinstance(i, Err) else list(i)]
+        return iround_obs(Instant(tuple(c["c"])))
+    if op == "parseshow":
+        q = periods.period(c["s"])
+        return [enc_period(q), guarded(round_obs, q)]      # prints the very object the parser returned
+    if op == "iparseshow":
+        i = periods.instant(c["s"])
+        return [list(i), guarded(iround_obs, i)]
+    if op == "seq":
+        # all steps in this one process, in order: state kept by the implementation between
+        # calls (caches) is exercised; the model has none
+        return [guarded(run_impl, x) for x in c["steps"]]
     if op == "many":
         return [guarded(lambda p=p: str(mk_period(p))) for p in c["ps"]]
     if op == "disk":
         return run_disk(c["ps"])
     raise ValueError(op)
+
+
+def round_obs(p):
+    text = str(p)
+    q = guarded(periods.period, text)
+    if isinstance(q, Err):
+        return [text, q]
+    return [text, enc_period(q), guarded(str, q)]
+
+
+def iround_obs(i):
+    text = str(i)
+    j = guarded(periods.instant, text)
+    return [text, j if isinstance(j, Err) else list(j)]
 
 
 def run_disk(ps):
@@ -156,6 +188,8 @@ def run_disk(ps):
 
 
 def obs_for_coq(c, o):
+    if c["op"] == "seq" and not isinstance(o, Err):
+        return [obs_for_coq(x, y) for x, y in zip(c["steps"], o)]
     if c["op"] == "disk" and not isinstance(o, Err):
         return [[t, k] for t, k, _ in o]      # the stored values are for the oracle only
     return o
@@ -261,8 +295,59 @@ def must_reject(s):
     return None
 
 
+def text_denotes(s):
+    """(unit code, start date, size) that a well-formed text denotes, read independently of
+    the implementation (datetime), or None when this reading does not cover the text."""
+    f = s.split(":")
+    if not 1 <= len(f) <= 3 or must_reject(s) is not None:
+        return None
+    date = f[-1] if len(f) == 1 else f[1]
+    k = date_field(date)
+    if k[0] != "ok":
+        return None
+    if "W" in date:
+        d = datetime.date.fromisocalendar(int(date[:4]), int(date[6:8]), int(date[9]) if len(date) > 8 else 1)
+    else:
+        parts = [int(x) for x in date.split("-")] + [1, 1]
+        d = datetime.date(*parts[:3])
+    unit = k[1] if len(f) == 1 else f[0]
+    if unit not in UNAME[:5]:
+        return None
+    size = 1
+    if len(f) == 3:
+        if not re.fullmatch(r"[+-]?[0-9]+", f[2]):
+            return None
+        size = int(f[2])
+    return [UNAME.index(unit), [d.year, d.month, d.day], size]
+
+
 def oracle(c, o):
     op = c["op"]
+    if op == "seq":
+        if isinstance(o, Err):
+            return f"seq: raised {o.kind}"
+        for i, (x, y) in enumerate(zip(c["steps"], o)):
+            msg = oracle(x, y)
+            if msg:
+                before = [st.get("s") or st.get("p") or st.get("c") for st in c["steps"][:i]]
+                return f"{msg} [step {i} of a sequence in one process, after {before}]"
+        return None
+    if op == "parseshow":
+        cls = must_reject(c["s"])
+        if isinstance(o, Err):
+            return None
+        if cls is not None:
+            return f"accepts-{cls}: {c['s']!r} is parsed as {o[0]}"
+        exp = text_denotes(c["s"])
+        if exp is not None and o[0] != exp:
+            return f"denotes: {c['s']!r} denotes {exp}, parsed as {o[0]}"
+        # what the parser returned must print and round-trip like any other period
+        return oracle({"op": "round", "p": o[0]}, o[1])
+    if op == "iparseshow":
+        if isinstance(o, Err):
+            return None
+        msg = oracle({"op": "iparse", "s": c["s"]}, o[0])
+        return msg or oracle({"op": "iround", "c": o[0]}, o[1])
     if op == "round":
         p = c["p"]
         if not claimed(p):
@@ -353,6 +438,10 @@ def oracle(c, o):
 def nontrivial(c, o):
     if isinstance(o, Err):
         return False
+    if c["op"] == "seq":
+        return any(nontrivial(x, y) for x, y in zip(c["steps"], o))
+    if c["op"] in ("parseshow", "iparseshow"):
+        return True
     if c["op"] == "round":
         return not isinstance(o[1], Err)
     return True
@@ -361,6 +450,8 @@ def nontrivial(c, o):
 def classify(c, o):
     op = c["op"]
     tag = op
+    if op == "seq":
+        return "seq:" + c["steps"][0]["op"] + ":" + str(len(c["steps"])) + (":" + o.kind if isinstance(o, Err) else "")
     if op in ("show", "round"):
         p = c["p"]
         tag += ":" + UCOQ[p[0]] + (":claimed" if claimed(p) else ":unclaimed")
@@ -567,10 +658,78 @@ def near_batches(rng, per_batch=40):
     return res
 
 
+def spellings(d):
+    """Accepted texts whose start is the date d: (kind, text); kind 'i' can be given to
+    periods.instant as well as to periods.period."""
+    iy, w, wd = d.isocalendar()
+    iso = d.isoformat()
+    wk = f"{iy:04d}-W{w:02d}"
+    out = [("i", iso), ("i", f"{wk}-{wd}"), ("p", "day:" + iso), ("p", "day:" + iso + ":3"),
+           ("p", f"weekday:{wk}-{wd}:2"), ("p", f"day:{wk}-{wd}"), ("p", "weekday:" + iso),
+           ("p", f"weekday:{wk}-{wd}"), ("p", "week:" + iso + ":2"), ("p", "month:" + iso), ("p", f"year:{wk}-{wd}:2")]
+    if wd == 1:
+        out += [("i", wk), ("p", "week:" + wk + ":2"), ("p", "month:" + wk), ("p", "year:" + wk + ":1")]
+    if d.day == 1:
+        out += [("i", iso[:7]), ("p", "month:" + iso[:7] + ":3"), ("p", "year:" + iso[:7]), ("p", "week:" + iso[:7])]
+        if d.month == 1:
+            out += [("i", iso[:4]), ("p", "year:" + iso[:4] + ":2")]
+    return out
+
+
+def sequences(rng, n_dates, bd):
+    """Operation sequences run in one process: parse texts (every accepted spelling of a
+    day, in random order), print what the parser returned, print the instant and periods
+    starting that day built afresh, parse the printed texts and print again."""
+    out = []
+    for k in range(n_dates):
+        if k % 3 == 0:
+            s = rng.choice(bd)
+        else:
+            s = rand_date(rng)
+        if k % 4 == 1:
+            s = align(1, s)            # a Monday: week texts apply
+        elif k % 4 == 2:
+            s = [s[0], s[1], 1]        # first of month: month / year texts apply
+        d = D(s)
+        sp = spellings(d)
+        rng.shuffle(sp)
+        steps = []
+        for kind, text in sp[: rng.choice([1, 2, 4, len(sp)])]:
+            if kind == "i" and rng.random() < 0.7:
+                steps.append({"op": "iparseshow", "s": text})
+            else:
+                steps.append({"op": "parseshow", "s": text})
+            r = rng.random()
+            if r < 0.4:
+                steps.append({"op": "iround", "c": list(s)})
+            elif r < 0.6:
+                steps.append({"op": "ishow", "c": list(s)})
+            elif r < 0.8:
+                u = rng.choice([0, 2, 1, 3, 4])
+                steps.append({"op": "round", "p": [u, align(u, list(s)), rng.choice([1, 1, 2, 12])]})
+        # afterwards everything that starts that day prints canonically
+        steps.append({"op": "iround", "c": list(s)})
+        for u in (0, 2):
+            steps.append({"op": "round", "p": [u, list(s), rng.choice([1, 2])]})
+        steps.append({"op": "iparseshow", "s": d.isoformat()})
+        # neighbours of the day (the day before / after are other instants)
+        for delta in (-1, 1):
+            try:
+                x = d + datetime.timedelta(delta)
+            except OverflowError:
+                continue
+            steps.append({"op": "iround", "c": [x.year, x.month, x.day]})
+        out.append({"op": "seq", "steps": steps})
+    return out
+
+
 def generate(rng, tier):
     scale = {"quick": 1, "escalated": 4, "thorough": 25}[tier]
     cases = []
     bd = boundary_dates()
+
+    # (0) stateful sequences first (the process is as fresh as it gets) ------------------------
+    cases += sequences(rng, 150 * scale, bd)
 
     # (a) printing ---------------------------------------------------------------------------
     cases.append({"op": "round", "p": ETERNITY})
@@ -695,7 +854,10 @@ def neighbours(c, rng):
 
 
 def shrink(c, still_fails):
-    """Drop characters of a failing string / periods of a failing batch while it keeps failing."""
+    """Drop characters of a failing string / periods of a failing batch while it keeps failing.
+    Sequences are kept whole: re-running parts of one in this process would see its state."""
+    if c["op"] == "seq":
+        return None
     if c["op"] in ("parse", "iparse"):
         s = c["s"]
         changed = True
